@@ -28,6 +28,7 @@ RULE = (
     "the sampler. Non-trivial = the layout holds a non-basis state (complex phases, entanglement or mixture); "
     "distinct = hash of (family, layout, steps)."
 )
+RULE += ' (C) one case in eight: a pure state held as a density matrix is taken out of the unit-trace regime by a non-unitary user operator through the non-renormalising Custom type with automatic contraction off, then contracted explicitly or by switching contraction back on; states are compared after normalisation (the ray must not change).'
 ASSUMPTIONS = ["reference self-tests passed", "after a displacement/squeezing step the twins may choose different cut-offs, each within the truncation tolerance: they are then compared to 1e-2", "twins share the seed and the forced-outcome scripts, so they follow the same branch whenever their probabilities agree",
                "a twin triple is abandoned (counted) when any twin fails a step for a reason belonging to another property"]
 
